@@ -22,6 +22,15 @@
 (*   OutOnlyUnchecked  InvokeMethod: the "output-only parameter" check     *)
 (*                     reads method.qualifiers instead of the parameter's  *)
 (*                     -> an OUT-only parameter reaches the provider       *)
+(*   PragmaCaseSensitive  build_schema_mof compares the class names with   *)
+(*                     the schema pragma file case-sensitively: classes    *)
+(*                     named in another lexical case (c.anycase) cannot be *)
+(*                     installed -> ValueError                             *)
+(*   RecompileExisting  when one served class is missing, ALL served       *)
+(*                     classes are compiled again; ModifyClass of one that *)
+(*                     exists and has subclasses or instances fails        *)
+(*                     -> MOFRepositoryError (repository restored); the    *)
+(*                     ModifyClass goes to the default namespace           *)
 (* Variant selects a realistic WRONG design (regression configurations):   *)
 (*   "subclass"    lookup falls back to the provider of the superclass     *)
 (*   "typeblind"   lookup ignores the provider type                        *)
@@ -35,7 +44,8 @@
 (***************************************************************************)
 EXTENDS ProvDispatch, SequencesExt
 
-CONSTANTS NsArgFormatBug, ClassnamesAssert, OutOnlyUnchecked, Variant
+CONSTANTS NsArgFormatBug, ClassnamesAssert, OutOnlyUnchecked,
+          PragmaCaseSensitive, RecompileExisting, Variant
 
 InitImpl == [reg |-> [k \in Keys |-> 0], cls |-> InitClasses, store |-> {}]
 
@@ -60,8 +70,19 @@ RegLoop(st, c, nss, i) ==
            pc == Rng(c.pcls)
            missing == {x \in pc : Cl(n, x) \notin st.cls} IN
        IF missing # {} /\ ~c.pragma THEN <<"ValueError", st>>
-       ELSE IF missing # {} /\ ~(pc \subseteq SchemaClasses)
+       ELSE IF missing # {} /\ (~(pc \subseteq SchemaClasses) \/
+                                 (PragmaCaseSensitive /\ c.anycase))
        THEN <<"ValueError", st>>      \* build_schema_mof: not in pragma file
+       ELSE IF missing # {} /\ RecompileExisting /\
+               \* CreateClass -> ALREADY_EXISTS -> ModifyClass, which the MOF
+               \* compiler's mock connection sends to the DEFAULT namespace
+               \* (the namespace is passed positionally and dropped)
+               \E x \in pc : /\ Cl(n, x) \in st.cls
+                              /\ \/ Cl(DefaultNs, x) \notin st.cls
+                                 \/ x = "A" /\ Cl(DefaultNs, "B") \in st.cls
+                                 \/ \E r \in st.store :
+                                       r.ns = DefaultNs /\ r.c = x
+       THEN <<"MOFRepositoryError", st>>
        ELSE RegLoop(
               [st EXCEPT
                  !.cls = @ \cup (IF missing # {} THEN {Cl(n, x) : x \in pc}
